@@ -652,6 +652,9 @@ func (e *Engine) isCollectThenSort(fn *ssa.Function, rng *ssa.Range) (bool, stri
 				if callee.Pkg != nil && callee.Pkg != fn.Pkg {
 					name = callee.Pkg.Pkg.Name() + "." + callee.Name()
 				}
+				if cfc := e.ld.byFn[callee]; cfc != nil && len(cfc.Modifies) == 0 && callee.Pkg == fn.Pkg {
+					continue // a function verified to modify nothing
+				}
 				if !collectPureCallees[name] {
 					return false, "call of " + name + " inside the loop"
 				}
